@@ -40,6 +40,9 @@ func descN(v ssa.Value, depth int) string {
 		}
 		return paramName(x)
 	case *ssa.FreeVar:
+		if v, ok := descFreeSubst[x]; ok {
+			return v
+		}
 		return freeVarName(x)
 	case *ssa.Global:
 		if x.Pkg != nil {
@@ -211,6 +214,10 @@ func derefBase(v ssa.Value) ssa.Value {
 	}
 	return only
 }
+
+// descFreeSubst, while non-nil, renders the captured variables of a function literal that a
+// lock-wrapper helper runs at once as the values they were bound to at the call.
+var descFreeSubst map[*ssa.FreeVar]string
 
 // paramName gives a position-based canonical name, so that renaming a receiver or a
 // parameter does not change any access path: "recv" for a method receiver, "argN" else.
@@ -654,6 +661,9 @@ func (p *Prog) GuardStrings(in ssa.Instruction) []string {
 		if extra := p.predicateHelperFact(a); extra != "" {
 			add(extra)
 		}
+		if extra := p.closedPollFact(a); extra != "" {
+			add(extra)
+		}
 		for _, extra := range p.validatorFacts(a) {
 			add(extra)
 		}
@@ -714,6 +724,110 @@ func (p *Prog) GuardStrings(in ssa.Instruction) []string {
 		}
 	}
 	return out
+}
+
+// closedPollFact: `func (l *listener) isClosed() bool { select { case <-l.closeQ: return true;
+// default: return false } }` — a guard that is a call of such a predicate stands for "the
+// receive from that channel was ready", in the caller's terms.
+func (p *Prog) closedPollFact(a Atom) string {
+	call, ok := a.Cond.(*ssa.Call)
+	if !ok {
+		return ""
+	}
+	sc := call.Call.StaticCallee()
+	if sc == nil || sc.Blocks == nil || !p.moduleFunc(sc) || sc.Pkg != call.Parent().Pkg || sc.Signature.Results().Len() != 1 {
+		return ""
+	}
+	var sel *ssa.Select
+	n := 0
+	okShape := true
+	EachInstr(sc, func(in ssa.Instruction) {
+		n++
+		switch x := in.(type) {
+		case *ssa.Select:
+			if sel != nil || x.Blocking || len(x.States) != 1 || x.States[0].Dir != types.RecvOnly {
+				okShape = false
+			}
+			sel = x
+		case *ssa.Store, *ssa.Send, *ssa.Go, *ssa.MapUpdate:
+			okShape = false
+		case *ssa.Call:
+			okShape = false
+		}
+	})
+	if !okShape || sel == nil || n > 20 {
+		return ""
+	}
+	// the result is true exactly on the receive arm
+	truthOnArm := -1
+	EachInstr(sc, func(in ssa.Instruction) {
+		ret, isRet := in.(*ssa.Return)
+		if !isRet || len(ret.Results) != 1 || in.Block() == sc.Recover {
+			return
+		}
+		for _, e := range p.splitReturn(sc, ret) {
+			arm := hasAtomPrefix(e.Guard, "arm(<-")
+			notArm := hasAtomPrefix(e.Guard, "!arm(<-")
+			switch {
+			case arm && e.Args[0] == "true", notArm && e.Args[0] == "false":
+				if truthOnArm == 0 {
+					truthOnArm = -2
+				} else if truthOnArm == -1 {
+					truthOnArm = 1
+				}
+			case arm && e.Args[0] == "false", notArm && e.Args[0] == "true":
+				if truthOnArm == 1 {
+					truthOnArm = -2
+				} else if truthOnArm == -1 {
+					truthOnArm = 0
+				}
+			default:
+				truthOnArm = -2
+			}
+		}
+		if len(p.splitReturn(sc, ret)) == 0 {
+			gs := p.GuardStrings(in)
+			v := Desc(resolveSpill(ret.Results[0], ret))
+			arm := hasAtomPrefix(gs, "arm(<-")
+			notArm := hasAtomPrefix(gs, "!arm(<-")
+			switch {
+			case arm && v == "true", notArm && v == "false":
+				if truthOnArm == -1 || truthOnArm == 1 {
+					truthOnArm = 1
+				} else {
+					truthOnArm = -2
+				}
+			case arm && v == "false", notArm && v == "true":
+				if truthOnArm == -1 || truthOnArm == 0 {
+					truthOnArm = 0
+				} else {
+					truthOnArm = -2
+				}
+			default:
+				truthOnArm = -2
+			}
+		}
+	})
+	if truthOnArm < 0 {
+		return ""
+	}
+	saved := descSubst
+	ns := map[*ssa.Parameter]string{}
+	for k, val := range saved {
+		ns[k] = val
+	}
+	for i, par := range sc.Params {
+		if i < len(call.Call.Args) {
+			ns[par] = Desc(call.Call.Args[i])
+		}
+	}
+	descSubst = ns
+	armAtom := "arm(<-" + Desc(sel.States[0].Chan) + ")"
+	descSubst = saved
+	if (truthOnArm == 1) != a.Pol {
+		return "!" + armAtom
+	}
+	return armAtom
 }
 
 // shortCircuitParts: for the atom !(a || b || …) or (a && b && …), where the operator was
